@@ -7,6 +7,11 @@ HOOK_COMMITS = subprocess.run(
     capture_output=True, text=True).stdout.strip().splitlines()
 
 CHECKS = {
+ "C11": dict(
+   text="Seeded deterministic simulation of the real TxnPoliciesAccessor with its two MapVacuum goroutines on the fake clock, fed through the real policies file loader and a simulated HAProxy admin API: histories of transaction request/response lookups, apply-policies, apply with HAProxy failure, fail-safe reverts, clock targets on vacuum ticks and around the 30 s retention, concurrent groups interleaved at instrumented lock sites. Oracle: version table + pin per transaction: R1 response sees the request's version inside the retention, R2 a new transaction after a successful apply sees the newest version, R3 a failed apply changes nothing, R4 never empty policies. Sampling, not proof.",
+   design_ref="DESIGN.md section 4 C11",
+   note="Trusted: synctest fake clock; retention counted from the first lookup; configuration changes serial among themselves; simHAProxy answers what the scenario tells it to.",
+   technique="deterministic simulation: seeded reload/revert/transaction histories with retention-instant clock targets and lock-site interleaving against a reference version table"),
  "C17": dict(
    text="Seeded deterministic simulation in both modes: the real policy-mode RetryPlugin (state in MemoryCache, TTL cooldown+31 s, clock gaps at the state lifetime -1 ns / exactly / +1 ns, id reuse, 3 interleaved sequences) and the real streams engine with a Filter -> Retry response flow whose cool-down waits run on the fake clock, several sequences concurrently in flight and interleaved at instrumented lock sites. Oracle per logical call: R1 retry verdicts <= attempts, R2 failure after exhaustion and a later call starting afresh is granted its retry, R3 out-of-condition responses never retry and (policy mode) end the sequence. Sampling, not proof.",
    design_ref="DESIGN.md section 4 C17",
